@@ -10,8 +10,11 @@ follows a `next`, so `(l.next).1.backup` is characterised as a whole.
 
 Contents: character classes (white space is never an identifier rune; the ASCII punctuation used by the
 syntax is neither), list facts about `takeWhile / dropWhile` on `piece ++ rest`, projections of the
-primitives, the scanning loops on shaped input (`skipWs scanIdent scanComment scanString skipBlanks`), and
-`Goes`, the chaining form of `Reaches` in which all lemmas about state functions are stated. -/
+primitives, the scanning loops on shaped input (`skipWs scanIdent scanComment scanString skipBlanks`),
+`Goes`, the chaining form of `Reaches` in which all lemmas about state functions are stated, one `goes_lexXxx`
+lemma per state function and branch used by statements, arguments and parentheses (`lexStart lexHash lexComment
+lexIdent lexDeclare lexDeclString lexLeftParen lexArgs lexComma lexString lexRightParen`), the lexing of one
+argument (`goes_arg`), and entering / leaving a statement boundary (`AtStmt`). -/
 set_option linter.unusedSimpArgs false
 namespace Spok
 namespace RT
@@ -169,19 +172,19 @@ theorem Stops.append {α} {p : α → Bool} {xs ys : List α} (hx : Stops p xs) 
 theorem dropWhile_ws {ws rest : List Rune} (hw : Ws ws) (hs : Stops isSpace rest) :
     (ws ++ rest).dropWhile isSpace = rest := dropWhile_append_stops hw hs
 
-theorem Ws.append {a b : List Rune} (ha : Ws a) (hb : Ws b) : Ws (a ++ b) := by
+theorem ws_append {a b : List Rune} (ha : Ws a) (hb : Ws b) : Ws (a ++ b) := by
   intro r hr; rcases List.mem_append.mp hr with h | h
   · exact ha r h
   · exact hb r h
 
-theorem Ws.nil : Ws [] := by intro r hr; cases hr
+theorem ws_nil : Ws [] := by intro r hr; cases hr
 
-theorem Eol.ws {e : List Rune} (h : Eol e) : Ws e := by
+theorem eol_ws {e : List Rune} (h : Eol e) : Ws e := by
   rcases h with rfl | rfl <;> intro r hr <;> simp at hr
   · subst hr; simp
   · rcases hr with rfl | rfl <;> simp
 
-theorem Eol.startsEol {e : List Rune} (h : Eol e) (rest : List Rune) : startsEol (e ++ rest) = true := by
+theorem eol_startsEol {e : List Rune} (h : Eol e) (rest : List Rune) : startsEol (e ++ rest) = true := by
   rcases h with rfl | rfl
   · simp [Spok.startsEol]
   · simp [Spok.startsEol]
@@ -666,6 +669,363 @@ theorem goes_lexIdent {l : L} {n ws after : List Rune} (hr : l.right = n ++ ws +
   · show lexIdent l = _
     rw [lexIdent_eq, ← e1]
   · rw [views_of_toks e4]; simp [h2]
+
+theorem stops_cons_space {r : Rune} (h : isSpace r = false) (rs : List Rune) : Stops isSpace (r :: rs) := Stops.cons h rs
+
+/-- state after `:=` has been absorbed and the white space behind it skipped -/
+theorem lexDeclare_mid {l : L} {c1 c2 : Rune} {ws after : List Rune} (hr : l.right = c1 :: c2 :: ws ++ after)
+    (h1 : isSpace c1 = false) (hw : Ws ws) (hs : Stops isSpace after) :
+    (skipWs (((skipWs l).absorb 2).emit .declare)).right = after ∧
+    views (skipWs (((skipWs l).absorb 2).emit .declare)) = views l ++ [(.declare, [c1, c2])] := by
+  have h0 : (skipWs l).right = c1 :: c2 :: ws ++ after := by
+    rw [skipWs_right, hr]; simp [h1]
+  refine ⟨?_, ?_⟩
+  · rw [skipWs_right]; simp [h0, dropWhile_ws hw hs]
+  · simp [h0]
+
+theorem goes_lexDeclare_string {l : L} {c1 c2 r : Rune} {ws rs : List Rune} (hr : l.right = c1 :: c2 :: ws ++ r :: rs)
+    (h1 : isSpace c1 = false) (hw : Ws ws) (hq : r.cp = QUOTE) :
+    Goes l .declare .declString rs [r] [(.declare, [c1, c2])] := by
+  have hs : isSpace r = false := not_space_of_cp hq (by simp)
+  obtain ⟨hm, hv⟩ := lexDeclare_mid hr h1 hw (stops_cons_space hs rs)
+  have h0 : (skipWs l).atEOF = false := by simp [L.atEOF, skipWs_right, hr, h1]
+  have e : lexDeclare l = ((skipWs (((skipWs l).absorb 2).emit .declare)).next.1, .declString) := by
+    simp [lexDeclare, h0, hm, hq]
+  exact Goes.step rfl e (L.next_right_cons hm) (by rw [L.next_tokRev_cons hm]; simp) (by simpa using hv)
+
+theorem goes_lexDeclare_ident {l : L} {c1 c2 r : Rune} {ws rs : List Rune} (hr : l.right = c1 :: c2 :: ws ++ r :: rs)
+    (h1 : isSpace c1 = false) (hw : Ws ws) (hi : isIdent r = true) :
+    Goes l .declare .ident rs [r] [(.declare, [c1, c2])] := by
+  have hs : isSpace r = false := isIdent_not_space hi
+  have hq : r.cp ≠ QUOTE := cp_ne_of_ident hi (by simp)
+  obtain ⟨hm, hv⟩ := lexDeclare_mid hr h1 hw (stops_cons_space hs rs)
+  have h0 : (skipWs l).atEOF = false := by simp [L.atEOF, skipWs_right, hr, h1]
+  have e : lexDeclare l = ((skipWs (((skipWs l).absorb 2).emit .declare)).next.1, .ident) := by
+    simp [lexDeclare, h0, hm, hq, hi]
+  exact Goes.step rfl e (L.next_right_cons hm) (by rw [L.next_tokRev_cons hm]; simp) (by simpa using hv)
+
+theorem stops_blank_of_eol {tail : List Rune} (ht : tail = [] ∨ startsEol tail = true) : Stops isBlank tail := by
+  cases tail with
+  | nil => exact Stops.nil _
+  | cons r rs =>
+    rcases ht with ht | ht
+    · cases ht
+    · refine Stops.cons ?_ _
+      simp only [startsEol, Bool.or_eq_true, Bool.and_eq_true, beq_iff_eq] at ht
+      rcases ht with ht | ⟨ht, _⟩ <;> simp [isBlank, ht]
+
+/-- `lexDeclString` after the opening quote: the string body, the closing quote, blanks, then the end of the line
+    (or of the input) -/
+theorem goes_lexDeclString {l : L} {s b tail : List Rune} {q : Rune} (hr : l.right = s ++ q :: b ++ tail) (hok : StrOK s)
+    (hq : q.cp = QUOTE) (hb : Blanks b) (ht : tail = [] ∨ startsEol tail = true) :
+    Goes l .declString .start tail [] [(.string, l.tokRev.reverse ++ s ++ [q])] := by
+  obtain ⟨l1, h1, h2, h3, h4⟩ := scanString_spec s l q (b ++ tail) (by simpa using hr) hok hq
+  -- the state in which the blanks are skipped
+  have key : ∀ l2 : L, l2.right = b ++ tail → l2.toks = (l1.emit .string).toks →
+      ∃ l3, (if (skipBlanks l2).discard.atEOF then ((skipBlanks l2).discard, Tag.start) else
+              if ((skipBlanks l2).discard.atEOL).2 then (((skipBlanks l2).discard.atEOL).1, Tag.start)
+              else ((skipBlanks l2).discard.atEOL).1.error) = (l3, Tag.start) ∧
+            l3.right = tail ∧ l3.tokRev = [] ∧ l3.toks = (l1.emit .string).toks := by
+    intro l2 hr2 ht2
+    have hsb : (skipBlanks l2).right = tail := skipBlanks_right_blanks hr2 hb (stops_blank_of_eol ht)
+    rcases ht with ht | ht
+    · refine ⟨(skipBlanks l2).discard, ?_, by simpa using hsb, by simp, by simp [L.discard, ht2]⟩
+      simp [L.atEOF, hsb, ht]
+    · have hne : tail ≠ [] := by intro h; rw [h] at ht; cases ht
+      refine ⟨((skipBlanks l2).discard.atEOL).1, ?_, by simpa using hsb, by simp, by simp [L.discard, ht2]⟩
+      simp [L.atEOF, hsb, hne, atEOL_val, ht]
+  have hv1 : views (l1.emit .string) = views l ++ [(.string, l.tokRev.reverse ++ s ++ [q])] := by
+    simp [h3, views_of_toks h4]
+  by_cases hE : (l1.emit .string).atEOF = true
+  · obtain ⟨l3, e3, r3, k3, t3⟩ := key (l1.emit .string) (by simpa using h2) rfl
+    refine Goes.step (l' := l3) rfl ?_ r3 k3 (by rw [views_of_toks t3, hv1])
+    show lexDeclString l = _
+    simp only [lexDeclString, h1, hE, if_true]
+    exact e3
+  · obtain ⟨l3, e3, r3, k3, t3⟩ := key ((l1.emit .string).atEOL).1 (by simpa using h2) (by simp)
+    refine Goes.step (l' := l3) rfl ?_ r3 k3 (by rw [views_of_toks t3, hv1])
+    show lexDeclString l = _
+    simp only [lexDeclString, h1, hE, if_false]
+    exact e3
+
+
+theorem goes_lexLeftParen {l : L} {r : Rune} {ws after : List Rune} (hr : l.right = r :: ws ++ after) (hk : l.tokRev = [])
+    (hw : Ws ws) (hs : Stops isSpace after) : Goes l .leftParen .args after [] [(.lparen, [r])] := by
+  have e : lexLeftParen l = (skipWs ((l.absorb 1).emit .lparen), .args) := by simp [lexLeftParen, L.atEOF, hr]
+  refine Goes.step rfl e ?_ (by simp) (by simp [hr, hk])
+  rw [skipWs_right]; simp [hr, dropWhile_ws hw hs]
+
+/-! `lexArgs`: white space, then one rune decides -/
+
+theorem goes_lexArgs_rparen {l : L} {r : Rune} {rs : List Rune} (hr : l.right.dropWhile isSpace = r :: rs)
+    (hc : r.cp = RPAREN) : Goes l .args .rightParen (r :: rs) [] [] := by
+  have hr' : (skipWs l).right = r :: rs := by rw [skipWs_right, hr]
+  have e : lexArgs l = ((skipWs l).next.1.backup, .rightParen) := by simp [lexArgs, hr', hc]
+  exact Goes.step rfl e (by simp [hr']) (by simp) (by simp)
+
+theorem goes_lexArgs_string {l : L} {r : Rune} {rs : List Rune} (hr : l.right.dropWhile isSpace = r :: rs)
+    (hc : r.cp = QUOTE) : Goes l .args .string rs [r] [] := by
+  have hr' : (skipWs l).right = r :: rs := by rw [skipWs_right, hr]
+  have e : lexArgs l = ((skipWs l).next.1, .string) := by simp [lexArgs, hr', hc]
+  exact Goes.step rfl e (L.next_right_cons hr') (by rw [L.next_tokRev_cons hr']; simp) (by simp)
+
+theorem goes_lexArgs_ident {l : L} {r : Rune} {rs : List Rune} (hr : l.right.dropWhile isSpace = r :: rs)
+    (hi : isIdent r = true) : Goes l .args .ident rs [r] [] := by
+  have hr' : (skipWs l).right = r :: rs := by rw [skipWs_right, hr]
+  have h1 : r.cp ≠ RPAREN := cp_ne_of_ident hi (by simp)
+  have h2 : r.cp ≠ QUOTE := cp_ne_of_ident hi (by simp)
+  have e : lexArgs l = ((skipWs l).next.1, .ident) := by simp [lexArgs, hr', h1, h2, hi]
+  exact Goes.step rfl e (L.next_right_cons hr') (by rw [L.next_tokRev_cons hr']; simp) (by simp)
+
+theorem goes_lexArgs_comma {l : L} {r : Rune} {rs : List Rune} (hr : l.right.dropWhile isSpace = r :: rs)
+    (hc : r.cp = COMMA) : Goes l .args .comma (r :: rs) [] [] := by
+  have hr' : (skipWs l).right = r :: rs := by rw [skipWs_right, hr]
+  have hi : isIdent r = false := not_ident_of_cp hc (by simp)
+  have e : lexArgs l = ((skipWs l).next.1.backup, .comma) := by simp [lexArgs, hr', hc, hi]
+  exact Goes.step rfl e (by simp [hr']) (by simp) (by simp)
+
+theorem goes_lexArgs_lbrace {l : L} {r : Rune} {rs : List Rune} (hr : l.right.dropWhile isSpace = r :: rs)
+    (hc : r.cp = LBRACE) : Goes l .args .leftBrace (r :: rs) [] [] := by
+  have hr' : (skipWs l).right = r :: rs := by rw [skipWs_right, hr]
+  have hi : isIdent r = false := not_ident_of_cp hc (by simp)
+  have e : lexArgs l = ((skipWs l).next.1.backup, .leftBrace) := by simp [lexArgs, hr', hc, hi]
+  exact Goes.step rfl e (by simp [hr']) (by simp) (by simp)
+
+/-! `lexComma`: the comma, white space, then one rune decides -/
+
+theorem lexComma_mid {l : L} {c : Rune} {ws after : List Rune} (hr : l.right = c :: ws ++ after) (hk : l.tokRev = [])
+    (hw : Ws ws) (hs : Stops isSpace after) :
+    (skipWs ((l.absorb 1).emit .comma)).right = after ∧
+    views (skipWs ((l.absorb 1).emit .comma)) = views l ++ [(.comma, [c])] := by
+  refine ⟨?_, by simp [hr, hk]⟩
+  rw [skipWs_right]; simp [hr, dropWhile_ws hw hs]
+
+theorem goes_lexComma_string {l : L} {c r : Rune} {ws rs : List Rune} (hr : l.right = c :: ws ++ r :: rs) (hk : l.tokRev = [])
+    (hw : Ws ws) (hq : r.cp = QUOTE) : Goes l .comma .string rs [r] [(.comma, [c])] := by
+  obtain ⟨hm, hv⟩ := lexComma_mid hr hk hw (stops_cons_space (not_space_of_cp hq (by simp)) rs)
+  have e : lexComma l = ((skipWs ((l.absorb 1).emit .comma)).next.1, .string) := by
+    simp [lexComma, L.atEOF, hr, hm, hq]
+  exact Goes.step rfl e (L.next_right_cons hm) (by rw [L.next_tokRev_cons hm]; simp) (by simpa using hv)
+
+theorem goes_lexComma_ident {l : L} {c r : Rune} {ws rs : List Rune} (hr : l.right = c :: ws ++ r :: rs) (hk : l.tokRev = [])
+    (hw : Ws ws) (hi : isIdent r = true) : Goes l .comma .ident rs [r] [(.comma, [c])] := by
+  obtain ⟨hm, hv⟩ := lexComma_mid hr hk hw (stops_cons_space (isIdent_not_space hi) rs)
+  have hq : r.cp ≠ QUOTE := cp_ne_of_ident hi (by simp)
+  have e : lexComma l = ((skipWs ((l.absorb 1).emit .comma)).next.1, .ident) := by
+    simp [lexComma, L.atEOF, hr, hm, hq, hi]
+  exact Goes.step rfl e (L.next_right_cons hm) (by rw [L.next_tokRev_cons hm]; simp) (by simpa using hv)
+
+theorem goes_lexComma_rparen {l : L} {c r : Rune} {ws rs : List Rune} (hr : l.right = c :: ws ++ r :: rs) (hk : l.tokRev = [])
+    (hw : Ws ws) (hc : r.cp = RPAREN) : Goes l .comma .rightParen (r :: rs) [] [(.comma, [c])] := by
+  obtain ⟨hm, hv⟩ := lexComma_mid hr hk hw (stops_cons_space (not_space_of_cp hc (by simp)) rs)
+  have hi : isIdent r = false := not_ident_of_cp hc (by simp)
+  have e : lexComma l = ((skipWs ((l.absorb 1).emit .comma)).next.1.backup, .rightParen) := by
+    simp [lexComma, L.atEOF, hr, hm, hc, hi]
+  exact Goes.step rfl e (by simp [hm]) (by simp) (by simpa using hv)
+
+/-- `lexString` after the opening quote, inside an argument list: the body, the closing quote, and then something
+    that is neither the end of the input nor a line end -/
+theorem goes_lexString {l : L} {s tail : List Rune} {q : Rune} (hr : l.right = s ++ q :: tail) (hok : StrOK s)
+    (hq : q.cp = QUOTE) (hne : tail ≠ []) (ht : startsEol tail = false) :
+    Goes l .string .args tail [] [(.string, l.tokRev.reverse ++ s ++ [q])] := by
+  obtain ⟨l1, h1, h2, h3, h4⟩ := scanString_spec s l q tail hr hok hq
+  have e : lexString l = (((l1.emit .string).atEOL).1, .args) := by
+    simp [lexString, h1, L.atEOF, h2, hne, atEOL_val, ht]
+  exact Goes.step rfl e (by simpa using h2) (by simp) (by simp [h3, views_of_toks h4])
+
+/-- the text begins with `->` -/
+def arrowAhead (after : List Rune) : Bool := (after.take 2).map (·.cp) == [MINUS, GT]
+
+/-- where `lexRightParen` goes, given what follows the parenthesis and the white space after it -/
+def rparenTag (after : List Rune) : Tag :=
+  match after with
+  | [] => .start
+  | r :: _ =>
+    if r.cp = LBRACE then .leftBrace
+    else if arrowAhead after then .outputOp
+    else if isIdent r then .start
+    else if r.cp = HASH then .hash
+    else .done
+
+/-- the dispatch at the end of `lexRightParen` -/
+def rparenTail (l : L) : L × Tag :=
+  let (l, r) := l.peek
+  if r.cp == LBRACE then (l, .leftBrace)
+  else if l.hasPrefix [MINUS, GT] then (l, .outputOp)
+  else
+    let (l, eol) := l.atEOL
+    if eol || l.atEOF || isIdent r then (l, .start)
+    else if r.cp == HASH then (l, .hash)
+    else l.error
+
+theorem rparenTail_spec {m : L} {after : List Rune} (hm : m.right = after) (hs : Stops isSpace after)
+    (ht : rparenTag after ≠ .done) :
+    (rparenTail m).2 = rparenTag after ∧ (rparenTail m).1.right = after ∧ (rparenTail m).1.tokRev = m.tokRev ∧
+    (rparenTail m).1.toks = m.toks := by
+  have hse := startsEol_of_stops hs
+  subst hm
+  cases hr : m.right with
+  | nil =>
+    simp [rparenTail, rparenTag, hr, hasPrefix_eq, atEOL_val, startsEol, L.atEOF]
+  | cons r rs =>
+    rw [hr] at hse ht
+    unfold rparenTag at ht ⊢
+    unfold rparenTail
+    simp only [] at ht ⊢
+    by_cases h1 : r.cp = LBRACE
+    · simp [hr, h1]
+    · have hp : m.hasPrefix [MINUS, GT] = arrowAhead (r :: rs) := by rw [hasPrefix_eq, hr]; rfl
+      by_cases h2 : arrowAhead (r :: rs) = true
+      · simp [hr, h1, hp, h2]
+      · have h2' := hp
+        simp only [h2] at h2'
+        by_cases h3 : isIdent r = true
+        · simp [hr, h1, h2, h2', h3, atEOL_val, hse, L.atEOF]
+        · by_cases h4 : r.cp = HASH
+          · simp [hr, h1, h2, h2', h3, h4, atEOL_val, hse, L.atEOF]
+          · simp [h1, h2, h3, h4] at ht
+
+/-- `lexRightParen` in front of `)`, white space `ws` and then `after`: emits `)` and stands in front of `after` -/
+theorem goes_lexRightParen {l : L} {r : Rune} {ws after : List Rune} (hr : l.right = r :: ws ++ after) (hk : l.tokRev = [])
+    (hw : Ws ws) (hs : Stops isSpace after) (ht : rparenTag after ≠ .done) :
+    Goes l .rightParen (rparenTag after) after [] [(.rparen, [r])] := by
+  have hm : (skipWs ((l.absorb 1).emit .rparen)).right = after := by
+    rw [skipWs_right]; simp [hr, dropWhile_ws hw hs]
+  obtain ⟨e1, e2, e3, e4⟩ := rparenTail_spec hm hs ht
+  have e : lexRightParen l = rparenTail (skipWs ((l.absorb 1).emit .rparen)) := by
+    have : l.atEOF = false := by simp [L.atEOF, hr]
+    unfold lexRightParen rparenTail
+    simp only [this]
+    rfl
+  refine Goes.step (l' := (rparenTail (skipWs ((l.absorb 1).emit .rparen))).1) rfl ?_ e2 (by rw [e3]; simp) ?_
+  · show lexRightParen l = _
+    rw [e, ← e1]
+  · rw [views_of_toks e4]; simp [hr, hk]
+
+/-! ## one argument -/
+
+/-- the state an argument is lexed in, by its first rune (which the dispatching state function has consumed) -/
+def runeTag (r : Rune) : Tag := if r.cp = QUOTE then .string else .ident
+
+/-- what may follow an argument and the white space after it, and the state the lexer is in then -/
+def ArgStop (after : List Rune) (t : Tag) : Prop :=
+  ∃ r rs, after = r :: rs ∧ ((r.cp = RPAREN ∧ t = .rightParen) ∨ (r.cp = COMMA ∧ t = .comma) ∨ (r.cp = LBRACE ∧ t = .leftBrace))
+
+theorem argText_head {a : Arg} {txt : List Rune} (h : ArgText a txt) :
+    ∃ r0 txt', txt = r0 :: txt' ∧ ((r0.cp = QUOTE) ∨ isIdent r0 = true) := by
+  cases h with
+  | str s hs => exact ⟨_, _, rfl, Or.inl rfl⟩
+  | ident _ hne hn =>
+    cases txt with
+    | nil => exact absurd rfl hne
+    | cons r n => exact ⟨r, n, rfl, Or.inr (hn r (by simp))⟩
+
+theorem startsEol_ws_append {ws after : List Rune} (hw : startsEol ws = false) (ha : Stops isSpace after) :
+    startsEol (ws ++ after) = false := by
+  cases ws with
+  | nil => simpa using startsEol_of_stops ha
+  | cons w ws =>
+    cases ws with
+    | nil =>
+      cases after with
+      | nil => simpa using hw
+      | cons x xs =>
+        have hx := ha x rfl
+        have : x.cp ≠ NL := fun he => by rw [isSpace_eq, he] at hx; simp at hx
+        simp [startsEol] at hw ⊢
+        simp [hw, this]
+    | cons w2 ws => simpa [startsEol] using hw
+
+theorem ArgStop.stops_space {after : List Rune} {t : Tag} (h : ArgStop after t) : Stops isSpace after := by
+  obtain ⟨r, rs, rfl, h⟩ := h
+  refine Stops.cons ?_ _
+  rcases h with ⟨h, _⟩ | ⟨h, _⟩ | ⟨h, _⟩ <;> exact not_space_of_cp h (by simp)
+
+theorem ArgStop.stops_ident {after : List Rune} {t : Tag} (h : ArgStop after t) : Stops isIdent after := by
+  obtain ⟨r, rs, rfl, h⟩ := h
+  refine Stops.cons ?_ _
+  rcases h with ⟨h, _⟩ | ⟨h, _⟩ | ⟨h, _⟩ <;> exact not_ident_of_cp h (by simp)
+
+theorem ArgStop.identTag {after : List Rune} {t : Tag} (h : ArgStop after t) : identTag after = t := by
+  obtain ⟨r, rs, rfl, h⟩ := h
+  rcases h with ⟨h, rfl⟩ | ⟨h, rfl⟩ | ⟨h, rfl⟩ <;> simp [RT.identTag, declAhead, h]
+
+theorem ArgStop.ne_done {after : List Rune} {t : Tag} (h : ArgStop after t) : t ≠ .done := by
+  obtain ⟨r, rs, rfl, h⟩ := h
+  rcases h with ⟨h, rfl⟩ | ⟨h, rfl⟩ | ⟨h, rfl⟩ <;> simp
+
+/-- from `.args` in front of white space and a stopper -/
+theorem goes_lexArgs_stop {l : L} {ws after : List Rune} {t : Tag} (hr : l.right = ws ++ after) (hw : Ws ws)
+    (h : ArgStop after t) : Goes l .args t after [] [] := by
+  have hd : l.right.dropWhile isSpace = after := by rw [hr, dropWhile_ws hw h.stops_space]
+  obtain ⟨r, rs, rfl, h⟩ := h
+  rcases h with ⟨h, rfl⟩ | ⟨h, rfl⟩ | ⟨h, rfl⟩
+  · exact goes_lexArgs_rparen hd h
+  · exact goes_lexArgs_comma hd h
+  · exact goes_lexArgs_lbrace hd h
+
+/-- Lexing one argument whose first rune `r0` has just been consumed by the dispatching state function: the
+    argument's token is emitted and the lexer stands in front of what follows the white space after it. -/
+theorem goes_arg {a : Arg} {txt ws after : List Rune} {t : Tag} (ha : ArgText a txt) (hws : AfterArg a ws)
+    (hstop : ArgStop after t) {r0 : Rune} {txt' : List Rune} (htxt : txt = r0 :: txt') {l : L}
+    (hr : l.right = txt' ++ ws ++ after) (hk : l.tokRev = [r0]) :
+    Goes l (runeTag r0) t after [] [argView a] := by
+  cases ha with
+  | str s hs =>
+    obtain ⟨hw, he⟩ := hws
+    have h0 : r0 = asc QUOTE ∧ txt' = s ++ [asc QUOTE] := by simpa using htxt.symm
+    obtain ⟨rfl, rfl⟩ := h0
+    have hne : ws ++ after ≠ [] := by
+      obtain ⟨r, rs, rfl, _⟩ := hstop; simp
+    have h1 := goes_lexString (l := l) (s := s) (q := asc QUOTE) (tail := ws ++ after) (by simpa using hr) hs rfl hne
+      (startsEol_ws_append he hstop.stops_space)
+    have h2 := h1.trans (fun l1 hr1 _ => goes_lexArgs_stop hr1 hw hstop)
+    exact h2.cast rfl rfl rfl (by simp [hk, argView])
+  | ident n hne hn =>
+    subst htxt
+    have hi : isIdent r0 = true := hn r0 (by simp)
+    have hq : r0.cp ≠ QUOTE := cp_ne_of_ident hi (by simp)
+    have h1 := goes_lexIdent (l := l) (n := txt') (ws := ws) (after := after) hr (fun r h => hn r (by simp [h])) hws
+      hstop.stops_space hstop.stops_ident (by rw [hstop.identTag]; exact hstop.ne_done)
+    have h2 : Goes l .ident t after [] [argView (.ident (r0 :: txt'))] :=
+      h1.cast hstop.identTag rfl rfl (by simp [hk, argView])
+    simpa [runeTag, hq] using h2
+
+/-! ## statement boundaries -/
+
+theorem dropWhile_ws_append {ws xs : List Rune} (hw : Ws ws) : (ws ++ xs).dropWhile isSpace = xs.dropWhile isSpace := by
+  induction ws with
+  | nil => rfl
+  | cons w ws ih =>
+    simp only [List.cons_append, List.dropWhile_cons, hw w (by simp)]
+    exact ih (fun r hr => hw r (by simp [hr]))
+
+/-- entering a statement that begins with `#` -/
+theorem goes_enter_hash {l : L} {t : Tag} {h : Rune} {more : List Rune} (hat : AtStmt l t (h :: more)) (hc : h.cp = HASH) :
+    Goes l t .hash (h :: more) [] [] := by
+  have hs : isSpace h = false := not_space_of_cp hc (by simp)
+  obtain ⟨hk, hat⟩ := hat
+  rcases hat with ⟨rfl, hr⟩ | ⟨rfl, hr, _⟩
+  · exact goes_lexStart_hash (by rw [hr]; simp [hs]) hc
+  · exact (Goes.refl l .hash).cast rfl (by rw [hr]; simp [hs]) hk rfl
+
+/-- entering a statement that begins with an identifier which is not the keyword `task…` -/
+theorem goes_enter_ident {l : L} {t : Tag} {r : Rune} {more : List Rune} (hat : AtStmt l t (r :: more))
+    (hi : isIdent r = true) (hk : ((r :: more).take 4).map (·.cp) ≠ [116, 97, 115, 107]) :
+    Goes l t .ident more [r] [] := by
+  have hs : isSpace r = false := isIdent_not_space hi
+  obtain ⟨_, hat⟩ := hat
+  rcases hat with ⟨rfl, hr⟩ | ⟨rfl, hr, r', tl, hr', hc'⟩
+  · exact goes_lexStart_ident (by rw [hr]; simp [hs]) hi hk
+  · exfalso
+    rw [hr] at hr'
+    simp [hs] at hr'
+    obtain ⟨rfl, _⟩ := hr'
+    exact cp_ne_of_ident hi (by simp) hc'
+
+/-- leaving a statement in state `start`, in front of white space and the rest of the file -/
+theorem atStmt_start {l : L} {ws rest : List Rune} (hk : l.tokRev = []) (hr : l.right = ws ++ rest) (hw : Ws ws) :
+    AtStmt l .start rest := ⟨hk, Or.inl ⟨rfl, by rw [hr, dropWhile_ws_append hw]⟩⟩
 
 end RT
 end Spok
